@@ -465,6 +465,28 @@ func TestVerif_C13_RefCountThroughTCPMux(t *testing.T) {
 			}
 			time.Sleep(50 * time.Microsecond)
 		}
+		// optionally a second peer whose connection cannot arm a write deadline (arming fails, clearing works):
+		// the healthy connection next to it must not keep an expired deadline after somebody's abort
+		brokenPeer := rapid.IntRange(0, 2).Draw(rt, "secondPeerCannotArmDeadlines") == 0
+		if brokenPeer {
+			ca2, cb2 := net.Pipe()
+			remote2 := &net.TCPAddr{IP: net.IPv4(198, 51, 100, 10), Port: 41001}
+			peer2 := &c15Client{id: 1, conn: ca2, remote: remote2, kind: "valid", ufrag: "ufragT", done: make(chan struct{})}
+			go peer2.reader()
+			defer ca2.Close() //nolint:errcheck
+			ln.ch <- &c15Conn{Conn: cb2, local: &net.TCPAddr{IP: localIP, Port: 8443}, remote: remote2, failArmWriteDeadline: true}
+			_ = ca2.SetWriteDeadline(time.Now().Add(20 * time.Second))
+			_, _ = ca2.Write(c15Frame(c15StunBinding("ufragT:peer", true, stun.MethodBinding)))
+			for d := time.Now().Add(20 * time.Second); time.Now().Before(d); {
+				under.mu.Lock()
+				_, has := under.conns[remote2.String()]
+				under.mu.Unlock()
+				if has {
+					break
+				}
+				time.Sleep(50 * time.Microsecond)
+			}
+		}
 		for k, idx := range order {
 			abortStyle := rapid.Bool().Draw(rt, "closeLikeACandidate")
 			if abortStyle {
@@ -511,7 +533,7 @@ func TestVerif_C13_RefCountThroughTCPMux(t *testing.T) {
 			}
 			_ = fresh.Close()
 		}
-		st.Record(vfHash("tcp", n, order), true, "tcp-mux")
+		st.Record(vfHash("tcp", n, order, brokenPeer), true, "tcp-mux", fmt.Sprintf("peer-that-cannot-arm-deadlines:%v", brokenPeer))
 		if st.WantSample() {
 			st.Sample(func() string { return fmt.Sprintf("tcp mux: %d handles, close order %v", n, order) })
 		}
